@@ -40,7 +40,7 @@ HOLDER = {"last": None, "ctx": None}
 # =========================================================================================== manager histories
 def _ref(scn, layer="L2"):
     """reference fingerprint from a fresh subprocess (memoised on disk for this run)"""
-    d = os.path.join(core.VERIF, ".work", "C13", "ref")
+    d = os.path.join(os.environ.get("VERIF_WORK") or os.path.join(core.VERIF, ".work", "C13"), "ref")
     os.makedirs(d, exist_ok=True)
     key = jhash({"scn": scn, "layer": layer})
     out = os.path.join(d, key + ".json")
